@@ -57,12 +57,42 @@ var spinWraps = []struct{ name, tmpl string }{
 	{"deferred-after-return", "func w() {\ndefer func() {\n%s\n}()\nreturn 1\n}\nprobe(w())"},
 	{"deferred-after-return-tail", "func w(v) {\ndefer func() {\n%s\n}()\nreturn v * 2\n}\nw(21)"},
 	{"deferred-named-after-return", "func spin() {\n%s\n}\nfunc w() {\ndefer spin()\nreturn 1\n}\nx = w()"},
+	// the core inside an operand of a statement whose own error handling comes afterwards: assignment targets (also of the
+	// two-value receive), keys, sizes, bounds, subjects
+	{"recv-ok-target", "ch = make(chan int64, 1)\nch <- 1\nm = {}\nv, m[func() {\n%s\n}()] = <-ch\nprobe(\"after\")"},
+	{"recv-value-target", "ch = make(chan int64, 1)\nch <- 1\nm = {}\nm[func() {\n%s\n}()], ok = <-ch\nprobe(\"after\")"},
+	{"recv-ok-target-undefined-value", "ch = make(chan int64, 1)\nch <- 1\nm = {}\nfresh, m[func() {\n%s\n}()] = <-ch\nprobe(\"after\")"},
+	{"index-target", "a = [1]\na[func() {\n%s\n}()] = 2\nprobe(\"after\")"},
+	{"multi-target", "a = [1, 2]\nx, a[func() {\n%s\n}()] = 5, 6\nprobe(\"after\")"},
+	{"member-target", "m = {}\n{\"k\": m}[func() {\n%s\n}()].x = 1\nprobe(\"after\")"},
+	{"delete-key", "m = {}\ndelete(m, func() {\n%s\n}())\nprobe(\"after\")"},
+	{"make-size", "s = make([]int64, func() {\n%s\n}())\nprobe(\"after\")"},
+	{"slice-bound", "a = [1, 2, 3]\nb = a[func() {\n%s\n}():2]\nprobe(\"after\")"},
+	{"map-literal-value", "m = {\"a\": func() {\n%s\n}(), \"b\": probe(\"later\")}\nprobe(\"after\")"},
+	{"forin-subject", "for x in func() {\n%s\n}() {\nprobe(x)\n}\nprobe(\"after\")"},
+	{"switch-case", "switch 1 {\ncase func() {\n%s\n}():\nprobe(\"hit\")\ndefault:\nprobe(\"default\")\n}\nprobe(\"after\")"},
+	{"opassign", "n = 1\nn += func() {\n%s\n}()\nprobe(\"after\")"},
+	{"send-value", "c = make(chan interface, 1)\nc <- func() {\n%s\n}()\nprobe(\"after\")"},
+	{"close-operand", "close(func() {\n%s\n}())\nprobe(\"after\")"},
+	{"len-operand", "len(func() {\n%s\n}())\nprobe(\"after\")"},
 	// the core twice: where the cancellation lands, and again in the clean-up that runs afterwards (deferred call, finally, catch)
 	{"twice-body-and-deferred", "func w() {\ndefer func() {\n%[1]s\n}()\n%[1]s\n}\nw()"},
 	{"twice-top-level-defer", "defer func() {\n%[1]s\n}()\n%[1]s"},
 	{"twice-try-and-finally", "try {\n%[1]s\n} catch e {\n} finally {\n%[1]s\n}"},
 	{"twice-try-in-func-catch-finally", "func w() {\n%[1]s\n}\ntry {\nw()\n} catch e {\n%[1]s\n} finally {\n%[1]s\n}"},
 	{"twice-nested-finally", "func g() {\ntry {\ntry {\n%[1]s\n} catch e1 {\n} finally {\nprobe(\"inner\")\n}\n} catch e2 {\n} finally {\n%[1]s\n}\n}\ng()"},
+}
+
+// every wrapper that ends with a probe also as the LAST statement of the script: nothing follows that would poll again, the
+// interruption itself must come back
+func init() {
+	n := len(spinWraps)
+	for i := 0; i < n; i++ {
+		w := spinWraps[i]
+		if strings.HasSuffix(w.tmpl, "\nprobe(\"after\")") && !strings.Contains(w.name, "tail") {
+			spinWraps = append(spinWraps, struct{ name, tmpl string }{w.name + "-tail", strings.TrimSuffix(w.tmpl, "\nprobe(\"after\")")})
+		}
+	}
 }
 
 // cores outside F0 (channels) and the callback wrapper: wall-clock oracle only
